@@ -81,7 +81,120 @@ def r2_deadline_shape(chk):
         r.require(cfg, 5, "linger obligations")
 
 
+def _state_required(b):
+    """variant X when method body b starts with `if self.state != X { return }`, else None"""
+    # the first branch of the function
+    blk = 0
+    for _ in range(12):
+        t = b.term(blk)
+        if t["k"] == "switch":
+            break
+        if t["k"] in ("goto", "drop"):
+            blk = t["t"]
+        elif t["k"] == "call" and t.get("t") is not None:
+            blk = t["t"]
+        else:
+            return None
+    else:
+        return None
+    a, pol = b.switch_atom(blk)
+    if a[0] != "call" or a[1].name not in ("ne", "eq") or len(a[1].args) != 2:
+        return None
+    c = a[1]
+    if not b.provenance(c.args[0]).endswith("self.state"):
+        return None
+    m = re.search(r"ShutdownPhase::(\w+)$", b.provenance(c.args[1]))
+    if not m:
+        return None
+    mismatch = b.bool_edge_label(blk, pol if c.name == "ne" else not pol)
+    mt = [t for t, lab in b.edges(blk) if lab == mismatch]
+    ot = [t for t, lab in b.edges(blk) if lab != mismatch]
+    only_mismatch = b.reachable(mt) - b.reachable(ot)
+    for bb, i, st in b.statements():
+        if bb in only_mismatch and st["k"] == "assign" and st["p"]["pr"] and b.place_path(st["p"]).startswith("self."):
+            return None
+    # the mismatch side must be the short one: it leaves the function (logging aside) without rejoining the work of the other side
+    if (b.reachable(mt) & b.reachable(ot)) - set(x for x in b.reachable(mt) if b.term(x)["k"] in ("return", "goto", "drop")):
+        return None
+    work = [c2 for c2 in b.calls if c2.blk in (b.reachable(ot) - b.reachable(mt)) and not (c2.exp or "")]
+    idle = [c2 for c2 in b.calls if c2.blk in only_mismatch and not (c2.exp or "")]
+    if idle or not (work or [1 for bb, i, st in b.statements() if bb in (b.reachable(ot) - b.reachable(mt)) and st["k"] == "assign" and st["p"]["pr"] and b.place_path(st["p"]).startswith("self.")]):
+        return None
+    return m.group(1)
+
+
+def r3_linger_started_in_lingering(chk):
+    r = chk.rule("R3", "the linger clock is started in the phase its starter requires", "T3 guarded-by (callee precondition at every call site)",
+                 "ShutdownCoordinator methods that begin with `if self.state != X { return }` (start_linger_if_needed, is_linger_expired_or_queues_empty: X = Lingering) are called only where "
+                 "`state = X` was the last assignment reaching the call or a guard `state == X` dominates it; called earlier they silently do nothing, the deadline is never armed and LINGER 0 / a bounded LINGER turn into an unbounded wait")
+    for cfg, prog in chk.configs():
+        n = 0
+        methods = {}
+        for b in prog.bodies.values():
+            if b.impl_self == "socket::core::state::ShutdownCoordinator" and b.kind in ("fn", "assoc_fn"):
+                x = _state_required(b)
+                if x:
+                    methods[strip(b.path)] = (b, x)
+        if not methods:
+            r.bad(cfg, "anchor|state-guarded coordinator methods", "core/src/socket/core/shutdown.rs", "no ShutdownCoordinator method with a `self.state != X -> return` entry guard found")
+            continue
+        for c in prog.all_calls():
+            tgt = methods.get(strip(c.callee))
+            if not tgt or "::tests" in c.body.path:
+                continue
+            callee, x = tgt
+            body = c.body
+            n += 1
+            recv = c.recv() or ""
+            key = "%s|%s called in phase %s" % (short(body.path), callee.name, x)
+            ok = None
+            # (b) a dominating guard state == X on the same receiver
+            for g in body.guards(c.blk, select_aware=False):
+                if g.atom[0] == "call" and g.atom[1].name in ("ne", "eq") and len(g.atom[1].args) == 2:
+                    pa = body.provenance(g.atom[1].args[0])
+                    pb = body.provenance(g.atom[1].args[1])
+                    if pa == recv + ".state" and pb.endswith("ShutdownPhase::" + x) and g.truth is (g.atom[1].name == "eq"):
+                        ok = "guard %s.state == %s" % (recv.split("(")[-1][:30], x)
+                if g.atom[0] == "discr" and g.atom[1] == recv + ".state":
+                    adt = prog.facts.adts.get("socket::core::state::ShutdownPhase")
+                    names = [v["name"] for v in adt["variants"]] if adt else []
+                    if isinstance(g.label, int) and g.label < len(names) and names[g.label] == x:
+                        ok = "match arm %s" % x
+            # (a) the state assignments that reach the call
+            assigns = []
+            for bb, i, st in body.statements():
+                if st["k"] == "assign" and st["p"]["pr"] and st["p"]["pr"][-1][0] == "field" and st["p"]["pr"][-1][2] == "state" and st["p"]["ty"].endswith("ShutdownPhase") and body.place_path(st["p"]) == recv + ".state":
+                    var = None
+                    if st["r"]["k"] == "agg":
+                        var = st["r"].get("variant")
+                    elif st["r"]["k"] == "use":
+                        org = body.value_origin(st["r"]["o"])
+                        var = org[1]["r"].get("variant") if org[0] == "agg" else "?"
+                    assigns.append((bb, var))
+            blocks = set(bb for bb, _ in assigns)
+            reaching = []
+            for bb, var in assigns:
+                others = blocks - {bb}
+                if c.blk in body.reachable([bb], avoid_blocks=others) and (bb != c.blk):
+                    reaching.append(var)
+            entry_reaches = c.blk in body.reachable([0], avoid_blocks=blocks)
+            if ok is None and reaching and all(v == x for v in reaching) and not entry_reaches:
+                ok = "state = %s is the only assignment reaching the call" % x
+            if ok:
+                r.ok(cfg, key, where(body, c.blk), ok)
+            else:
+                r.bad(cfg, key, where(body, c.blk), "%s() returns without doing anything unless state == %s, but at this call the state is %s: the linger deadline is not armed here" % (
+                    callee.name, x, ("whatever it was on entry" if entry_reaches and not reaching else "/".join(sorted(set(str(v) for v in reaching)) + (["<entry state>"] if entry_reaches else [])))))
+        r.require(cfg, 5, "calls of state-guarded coordinator methods")
+
+
+def strip(p):
+    from vlib.mir import strip_generics
+    return strip_generics(p)
+
+
 def run(chk):
     chk.undecided = ["how many accepted messages arrive for a given LINGER", "wall-clock bound of close()/term()"]
     r1_flush_before_close(chk)
     r2_deadline_shape(chk)
+    r3_linger_started_in_lingering(chk)
